@@ -569,9 +569,28 @@ func finish(spec *chain.PropSpec, tier string, base int64, recs []runRec, start 
 		ks = append(ks, s)
 	}
 	sort.Strings(ks)
+	// one line per listed finding (several signatures may fall under one wildcard entry)
+	type agg struct {
+		f    *finding
+		sigs []string
+		n    int
+	}
+	byKey := map[string]*agg{}
+	var keys []string
 	for _, s := range ks {
 		f := known.match(s)
-		fmt.Printf("KNOWN-FINDING: property=%s %s (signature %s, re-observed in %d runs)\n", f.Property, f.Description, s, knownSeen[s])
+		a := byKey[f.Key]
+		if a == nil {
+			a = &agg{f: f}
+			byKey[f.Key] = a
+			keys = append(keys, f.Key)
+		}
+		a.sigs = append(a.sigs, s)
+		a.n += knownSeen[s]
+	}
+	for _, k := range keys {
+		a := byKey[k]
+		fmt.Printf("KNOWN-FINDING: property=%s %s (signatures %s, re-observed in %d runs)\n", a.f.Property, a.f.Description, strings.Join(a.sigs, ", "), a.n)
 	}
 	// confirm new violations in a fresh process
 	nviol := 0
